@@ -161,7 +161,11 @@ MUTANTS = {
                     continue
                 if isinstance(node, Argument) or node is self.source_of[g] or list(node.subgraphs):
                     continue
-                if all(self.scope_tree.scope_of.get(d._op) is not g for d in node.dependencies):
+                if all(
+                    self.scope_tree.scope_of.get(d._op) is not g
+                    or (isinstance(d._op, Argument) and d not in self.arguments_of[g])
+                    for d in node.dependencies
+                ):
                     self.scope_tree.scope_of[node] = self.scope_tree.parent(g)
                     changed = True
         graph_scope_set: Dict[Any, Set[Node]] = {ctx: set() for ctx in self.graphs}
